@@ -110,6 +110,12 @@ impl<T: std::io::Read> YamlDecoder<T> {
     }
 }
 
+/// The spare capacity with which `encoding_rs` is guaranteed to make progress when decoding to
+/// UTF-8 ("When decoding to UTF-8, the output buffer must have at least 4 bytes of space", i.e.,
+/// room for the longest UTF-8 sequence). With less, it may return [`DecoderResult::OutputFull`]
+/// without having read or written anything.
+const MIN_DECODER_OUTPUT_SPACE: usize = 4;
+
 /// Perform a loop of [`Decoder::decode_to_string`], reallocating `output` if needed.
 fn decode_loop(
     input: &[u8],
@@ -142,7 +148,12 @@ fn decode_loop(
                 total_bytes_read += bytes_read;
                 // The output is already reserved to the size of the input. We slowly resize. Here,
                 // we're expecting that 10% of bytes will double in size when converting to UTF-8.
-                output.reserve(input.len() / 10);
+                //
+                // The decoder refuses to write anything (and consumes nothing) while fewer than
+                // `MIN_DECODER_OUTPUT_SPACE` bytes are spare, so we must always grow by at least
+                // that much: `input.len() / 10` alone is 0 for inputs shorter than 10 bytes (and
+                // less than 4 below 40 bytes), which made this loop spin forever.
+                output.reserve((input.len() / 10).max(MIN_DECODER_OUTPUT_SPACE));
             }
             (DecoderResult::Malformed(malformed_len, bytes_after_malformed), bytes_read) => {
                 total_bytes_read += bytes_read;
